@@ -85,8 +85,6 @@ Definition proj_plain (tr : list obs) : list obs :=
     | OLoop _ _ _ => [] end) tr.
 (* event mode: fetches, every operator application (OP_EXEC), LOOP events *)
 Definition proj_events (tr : list obs) : list obs := tr.
-Definition drop_loops (tr : list obs) : list obs :=
-  filter (fun o => match o with OLoop _ _ _ => false | _ => true end) tr.
 
 Definition effect_to_obs (e : effect) : obs :=
   match e with EGet n k => OGet n k | ECall n f a r => OCall n f a r end.
